@@ -136,7 +136,17 @@ def source_arrays(case):
             hi = int(np.iinfo(dt).max)
             pal = rng.integers(0, hi, size=5, dtype=np.uint64, endpoint=True)
             pal[0] = hi
-            if case["seed"] % 3 == 0:
+            if case["seed"] % 3 == 1 and dt.itemsize >= 4 and \
+                    "compressed_segmentation" in (case["src_enc"],
+                                                  case["dst_enc"]):
+                # blocks whose lookup tables differ but agree in every cheap
+                # fingerprint (length, ends, byte sum, CRC-32)
+                from checks import c02_cseg
+                a = c02_cseg.fingerprint_chunk(
+                    {"channels": case["channels"], "size": [X, Y, Z],
+                     "block": case.get("dblock", case["block"])},
+                    dt.newbyteorder("<"), rng).astype(dt)
+            elif case["seed"] % 3 == 0:
                 # piecewise constant labels (uniform 2x2x2 regions, as real
                 # segmentations have): whole blocks hold a single label
                 coarse = tuple([shape[0]] + [-(-n // 2) for n in shape[1:]])
